@@ -4,6 +4,7 @@ package main
 
 import (
 	"fmt"
+	"strings"
 	"sync"
 	"time"
 )
@@ -27,6 +28,14 @@ func runC04(c *Ctx) {
 	}
 	workers, per := c.N(6, 12), c.N(250, 1200)
 	rounds := c.N(1, 4)
+	// in-process cache stress (shared with C07/C20): readers of a few large, constantly overwritten
+	// values must get one complete value of their own key, never bytes of another key or version.
+	// Only that content oracle is judged here; sanitizer and race reports of the run belong to C20.
+	c.sigFilter = func(sig string) bool {
+		return !strings.HasPrefix(sig, "sanitizer-report:") && !strings.HasPrefix(sig, "data-race:cache")
+	}
+	c07Stress(c)
+	c.sigFilter = nil
 	for round := 0; round < rounds; round++ {
 		var wg sync.WaitGroup
 		results := make([]*stressResult, len(cfgs))
